@@ -17,6 +17,7 @@ import ParryModel.C20.Theorems14
 import ParryModel.C20.Theorems15
 import ParryModel.C20.Theorems16
 import ParryModel.C20.Theorems17
+import ParryModel.C20.Theorems18
 /-!
 # C20 theorems: definedness at the NaN-propagating instance `NaNable = Option Rat`
 (`x/0 = none`, `sqrt` of a negative = `none`, every comparison with `none` is false — IEEE behaviour).
